@@ -168,6 +168,8 @@ def argv_of(o):
 
 
 def classify(stderr):
+    # (a request the allocator declines - malloc returns NULL, which the translator handles - is a warning of the observer, not an error)
+    stderr = "\n".join(l for l in stderr.splitlines() if "WARNING: AddressSanitizer failed to allocate" not in l)
     if "AddressSanitizer" in stderr:
         m = re.search(r"AddressSanitizer: ([\w-]+)", stderr)
         fr = re.findall(r"#\d+ \S+ in (\w+)", stderr)
@@ -212,6 +214,10 @@ def main():
             for o in option_vectors(rng, nfuncs, tier):
                 for form in rng.sample(["plain", "dotdir", "abs", "nested"], 2 if tier == "quick" else 4):
                     jobs.append((name, data, len(data), "valid", o, form))
+            # the module arrives through a pipe (cat m.wasm | w2c2 /dev/stdin out.c) or a FIFO: short ones and ones of many kilobytes
+            if name in ("allsections", "allsections-padded") or len(data) > 6000:
+                for form in ("pipe", "fifo"):
+                    jobs.append((name, data, len(data), "unseekable", {"t": 2, "f": 0, "p": False, "g": False, "m": False, "d": "arrays", "c": False}, form))
             if name == "allsections":
                 # the NAME of the input file (the module name under -m comes from it): one letter to the longest a directory entry
                 # can have, letters, digits and other characters, under every data-segment mode with and without -m
@@ -249,7 +255,14 @@ def main():
             os.makedirs(os.path.join(d, "x", "y"))
             inp = os.path.join(d, o.get("iname", "in.wasm"))
             open(inp, "wb").write(data)
-            outarg = {"plain": "out.c", "dotdir": "./x/out.c", "abs": os.path.join(d, "x", "out.c"), "nested": "x/y/out.c"}[form]
+            outarg = {"plain": "out.c", "dotdir": "./x/out.c", "abs": os.path.join(d, "x", "out.c"), "nested": "x/y/out.c", "pipe": "out.c", "fifo": "out.c"}[form]
+            if o.get("c"):
+                # -c meets what earlier runs (finished, interrupted, on a full disk) and editors left under implementation-file names: an empty
+                # file, a blank first line, CRLF line ends, one very long line, binary content
+                od = os.path.dirname(os.path.join(d, outarg))
+                for sn, content in (("s0000000000.c", b""), ("s0000000001.c", b"\n#include \"w2c2_base.h\"\n"), ("d0000000002.c", b"#include \"w2c2_base.h\"\r\nint x;\r\n"),
+                                    ("s0000000003.c", b"/" * 5000), ("d0000000004.c", bytes(range(256)) * 4), ("s0000000005.c", b"\r"), ("d0000000006.c", b"\0")):
+                    open(os.path.join(od, sn), "wb").write(content)
             res = []
             refargs = []
             if o.get("ref") is not None:
@@ -259,8 +272,39 @@ def main():
                 refargs = ["-r", "no-such-file.wasm"]
             o = {k_: v_ for k_, v_ in o.items() if k_ not in ("ref", "refmissing", "iname")}
             for exe, kind in ((san, "san"), (plain, "plain")):
-                rc, so, se = run([exe] + argv_of(o) + refargs + [inp, outarg], cwd=d, timeout=300,
-                                 env={"ASAN_OPTIONS": "detect_leaks=0:exitcode=99:allocator_may_return_null=1", "UBSAN_OPTIONS": "print_stacktrace=1:exitcode=98"})
+                senv = {"ASAN_OPTIONS": "detect_leaks=0:exitcode=99:allocator_may_return_null=1", "UBSAN_OPTIONS": "print_stacktrace=1:exitcode=98"}
+                if form == "pipe":
+                    import subprocess
+                    try:
+                        p_ = subprocess.run([exe] + argv_of(o) + ["/dev/stdin", outarg], cwd=d, input=data, stdout=subprocess.PIPE, stderr=subprocess.PIPE, timeout=120, env=dict(os.environ, **senv))
+                        rc, so, se = p_.returncode, p_.stdout.decode("utf8", "replace"), p_.stderr.decode("utf8", "replace")
+                    except subprocess.TimeoutExpired:
+                        rc, so, se = -999, "", ""
+                elif form == "fifo":
+                    import subprocess, threading
+                    ff = os.path.join(d, "in-%s.fifo" % kind)
+                    os.mkfifo(ff)
+
+                    def feed():
+                        try:
+                            with open(ff, "wb") as w_:
+                                w_.write(data)
+                        except OSError:
+                            pass
+                    th_ = threading.Thread(target=feed, daemon=True)
+                    th_.start()
+                    rc, so, se = run([exe] + argv_of(o) + [ff, outarg], cwd=d, timeout=120, env=senv)
+                    if th_.is_alive():
+                        # the translator never opened (or stopped reading) the FIFO: release the writer
+                        try:
+                            fd_ = os.open(ff, os.O_RDONLY | os.O_NONBLOCK)
+                            os.close(fd_)
+                        except OSError:
+                            pass
+                    th_.join(5)
+                else:
+                    rc, so, se = run([exe] + argv_of(o) + refargs + [inp, outarg], cwd=d, timeout=300, env=senv)
+                se = "\n".join(l for l in se.splitlines() if "WARNING: AddressSanitizer failed to allocate" not in l)
                 res.append({"cls": cls, "status": rc if 0 <= rc < 98 else (0 if rc in (98, 99) else 255), "signal": -rc if -64 < rc < 0 else 0,
                             "timedout": rc == -999, "diagnostic": bool(re.sub(r"==\d+==.*", "", se, flags=re.S).strip()) if rc not in (98, 99) else True,
                             "sanitizer": classify(se), "opts": o, "module": name, "cut": cut, "form": form, "build": kind,
